@@ -193,7 +193,7 @@ def bm_pre(ctx):
     return bs, order, destroy, dead, size
 
 
-def check_bm(ctx, k):
+def check_bm(ctx, k, cross=False):
     bs, order, destroy, dead, size = bm_pre(ctx)
     cell = ctx.sym("cell", 64)
     owner = [z3.And(z3.UGE(cell, bs[i]), z3.ULE(cell - bs[i], BV(size - 4, 64)), z3.Not(dead(i))) for i in range(3)]
@@ -204,14 +204,19 @@ def check_bm(ctx, k):
     B = [0x300000000, 0x500000000, 0x900000000]
     if k == "k_bm_store_load":
         v = ctx.sym("v", 64)
-        ctx.assume(z3.Or(v == 0, z3.And(z3.UGT(v, ob), z3.ULT(v - ob, BV(size, 64)))))
+        if cross:
+            # the value may point into ANOTHER live sandbox: the cell's owner still decides the translation
+            ctx.assume(z3.Or(*[z3.And(z3.UGT(v, bs[i]), z3.ULT(v - bs[i], BV(size, 64)), z3.Not(dead(i))) for i in range(3)]))
+        else:
+            ctx.assume(z3.Or(v == 0, z3.And(z3.UGT(v, ob), z3.ULT(v - ob, BV(size, 64)))))
         args.append(v)
         paths = ctx.run(k, args)
         for q in paths:
             if q.status == "ret":
                 lg = q.user["log"]
                 stored = [e for e in lg if e[0] == 1][0][1]
-                ctx.require(q, z3.And(stored == rep_of(v, ob, 32), q.ret == v),
+                back = v if not cross else addr_of(rep_of(v, ob, 32), ob)
+                ctx.require(q, z3.And(stored == rep_of(v, ob, 32), q.ret == back),
                             "pointer stored into sandbox i's memory is encoded and decoded relative to sandbox i, whatever other sandboxes are live")
         vecs = [[B[0], B[1], B[2], o, d, B[1] + 0x40, B[1] + 0x1234] for o in range(6) for d in (0, 1, 3, 6)]
         vecs += [[B[0], B[1], B[2], 5, 0, B[2] + 0x40, 0], [B[2], B[0], B[1], 3, 2, B[2] + 0x40, B[2] + 0xFFFFFFFF]]
@@ -235,6 +240,36 @@ def check_bm(ctx, k):
     # native: map all three regions
     ctx.validate_multi = True
     validate_bm(ctx, k, vecs, B)
+
+
+def check_bm_failed(ctx):
+    size = 1 << 32
+    b0 = ctx.sandbox_base(32, "b0", aligned=False)
+    b1 = ctx.sandbox_base(32, "b1", aligned=False)
+    cell = ctx.sym("cell", 64)
+    v = ctx.sym("v", 64)
+    ctx.assume(z3.UGE(cell, b1), z3.ULE(cell - b1, BV(size - 4, 64)))
+    ctx.assume(z3.Or(v == 0, z3.And(z3.UGT(v, b1), z3.ULT(v - b1, BV(size, 64)))))
+    paths = ctx.run("k_bm_failed_create", [b0, b1, cell, v])
+    nfail = 0
+    for q in paths:
+        if q.status != "ret":
+            continue
+        env = [x for (t, x) in (q.user.get("env") or [])]
+        lg = [e for e in q.user["log"] if e[0] == 1][0]
+        ok0 = lg[2] if not isinstance(lg[2], int) else BV(lg[2], 64)
+        failed = ok0 == 0
+        if ctx.eng.check_sat(q.pc + [failed])[0] == "sat":
+            nfail += 1
+        good = z3.And(lg[1] == rep_of(v, b1, 32), q.ret == v)
+        # the failed object has no memory: its range may coincide with the live sandbox's in any way
+        ctx.require(q, z3.Implies(failed, good), "after a failed creation attempt, pointers in the live sandbox are translated relative to the live sandbox")
+        disj = z3.And(z3.Or(z3.UGE(b0 - b1, BV(size, 64)), z3.UGE(b1 - b0, BV(size, 64))), z3.Or(z3.UGE(b0, b1 + BV(size, 64)), z3.UGE(b1, b0 + BV(size, 64))))
+        ctx.require(q, z3.Implies(z3.And(z3.Not(failed), disj), good), "two live sandboxes: translated relative to the cell's owner")
+    if nfail == 0:
+        ctx.inconclusive.append("k_bm_failed_create: no path with a failed creation")
+    ctx.only(paths, "ret", "abort")
+    ctx.expect(paths, ret=2)
 
 
 def validate_bm(ctx, k, vecs, B):
@@ -303,5 +338,7 @@ def jobs(tier, seed):
     src = '#include "C04_bm.inc"\n'
     for k in ("k_bm_store_load", "k_bm_load", "k_bm_store_null_load"):
         out.append(Job("C04_BM_" + k, src, [dict(name="BM " + k, fn=check_bm, kw=dict(k=k))], unwind=200))
+    out.append(Job("C04_BM_cross", src, [dict(name="BM k_bm_store_load value in any live sandbox", fn=check_bm, kw=dict(k="k_bm_store_load", cross=True))], unwind=200, native=False))
+    out.append(Job("C04_BM_failed_create", src, [dict(name="BM k_bm_failed_create", fn=check_bm_failed)], unwind=200, native=False))
     out.append(Job("C04_BM_same", src, [dict(name="BM k_bm_same", fn=check_bm_same)], unwind=200))
     return out
